@@ -259,6 +259,17 @@ impl Number {
         }
     }
 
+    /// The quotient of two integers. Reduced in 64 bits because Ratio::<i32>::new
+    /// overflows when i32::MIN has to change sign, e.g. in -2147483648 / -1.
+    fn ratio_of(numer: i32, denom: i32) -> Number {
+        let ratio = Rational64::new(numer as i64, denom as i64);
+        match (ratio.numer().to_i32(), ratio.denom().to_i32()) {
+            (Some(numer), Some(denom)) => Rational32::new_raw(numer, denom).into(),
+            _ if ratio.is_integer() => ratio.to_integer().into(),
+            _ => (numer as f64 / denom as f64).into(),
+        }
+    }
+
     pub fn abs(&self) -> Number {
         match self {
             Number::Fixnum(num) => num.unsigned_abs().into(),
@@ -749,14 +760,14 @@ impl Div for &Number {
             Number::Fixnum(lhs) => match rhs {
                 Number::Fixnum(rhs) => {
                     if lhs.to_i32().is_some() && rhs.to_i32().is_some() {
-                        Rational32::new(*lhs as i32, *rhs as i32).into()
+                        Number::ratio_of(*lhs as i32, *rhs as i32)
                     } else {
                         (*lhs as f64 / *rhs as f64).into()
                     }
                 }
                 Number::BigInt(rhs) => {
                     if lhs.to_i32().is_some() && rhs.to_i32().is_some() {
-                        Rational32::new(*lhs as i32, rhs.to_i32().unwrap()).into()
+                        Number::ratio_of(*lhs as i32, rhs.to_i32().unwrap())
                     } else {
                         (*lhs as f64 / rhs.to_f64().unwrap_or(f64::NAN)).into()
                     }
@@ -776,14 +787,14 @@ impl Div for &Number {
             Number::BigInt(lhs) => match rhs {
                 Number::Fixnum(rhs) => {
                     if lhs.to_i32().is_some() && rhs.to_i32().is_some() {
-                        (Rational32::new(lhs.to_i32().unwrap(), *rhs as i32)).into()
+                        Number::ratio_of(lhs.to_i32().unwrap(), *rhs as i32)
                     } else {
                         (lhs.to_f64().unwrap_or(f64::NAN) / *rhs as f64).into()
                     }
                 }
                 Number::BigInt(rhs) => {
                     if lhs.to_i32().is_some() && rhs.to_i32().is_some() {
-                        (Rational32::new(lhs.to_i32().unwrap(), rhs.to_i32().unwrap())).into()
+                        Number::ratio_of(lhs.to_i32().unwrap(), rhs.to_i32().unwrap())
                     } else {
                         (lhs.to_f64().unwrap_or(f64::NAN) / rhs.to_f64().unwrap_or(f64::NAN)).into()
                     }
